@@ -66,7 +66,9 @@ func (f *WithOutputToString) Call(s *slip.Scope, args slip.List, depth int) slip
 	s2.Let(sym, &stream)
 	args = args[1:]
 	for i := range args {
-		_ = slip.EvalArg(s2, args, i, d2)
+		if result := slip.EvalArg(s2, args, i, d2); isTransfer(result) {
+			return result // a return-from, return or go is passed on to its target
+		}
 	}
 	return slip.String(out.String())
 }
